@@ -7,6 +7,8 @@ import DeapModel.Lemmas.C16Defs
 import DeapModel.Lemmas.C16Pickle
 import DeapModel.Lemmas.C16Copy
 import DeapModel.Lemmas.C16Examples
+import DeapModel.Lemmas.C16Namespace
+import DeapModel.Lemmas.C16Gp
 
 namespace C16
 open Heap
@@ -402,6 +404,318 @@ example : (classReduce Ex.modSrc 1 5).map (fun r =>
       (m.2, m.1.classes[m.2]?, m.1.classes[0]?, lookup 5 m.1.bound))
     = some (1, some ⟨.plain, [(1, 0)], [(9, .atom 3)]⟩, some ⟨.plain, [], [(9, .atom 4)]⟩, some 1) := by
   decide
+
+/-! ### Class identity across pickling: whatever happens to the namespace between dump and load -/
+
+/-- Whatever is created (re-created under a bound name: `creator.create` only warns) or deleted
+between a dump and a load, the class objects that existed stay what they were — so their instances
+keep their class — and the table stays well-founded. -/
+theorem namespace_history_keeps_classes (m0 : Module) (hct : CTOk m0.classes) (ops : List NsOp) :
+    CTOk (nsRun m0 ops).classes ∧ m0.classes.length ≤ (nsRun m0 ops).classes.length ∧
+    ∀ c, c < m0.classes.length → (nsRun m0 ops).classes[c]? = m0.classes[c]? :=
+  ⟨nsRun_ctok ops m0 hct, (nsRun_keeps ops m0).1, (nsRun_keeps ops m0).2⟩
+
+/-- Instance of the hypothesis: a history that re-creates the name 5 with other class-level values,
+deletes it, and creates it once more. -/
+example : CTOk (nsRun Ex.modSrc [.create 5 ⟨.plain, [(1, 0)], [(9, .atom 77)]⟩, .delete 5,
+    .create 5 ⟨.plain, [], []⟩]).classes :=
+  (namespace_history_keeps_classes Ex.modSrc Ex.ct_ok _).1
+
+example : (let m := nsRun Ex.modSrc [.create 5 ⟨.plain, [(1, 0)], [(9, .atom 77)]⟩, .delete 5,
+      .create 5 ⟨.plain, [], []⟩]
+    (m.classes.length, m.classes[1]?, lookup 5 m.bound, m.names))
+    = (5, some ⟨.plain, [(1, 0)], [(9, .atom 3)]⟩, some 4, [4, 5, 6, 5, 5]) := by
+  decide
+
+/-- **Class identity across pickling.**  `m` is the `deap.creator` module of the dumping interpreter
+(`nb` = number of classes that pickle by reference), `v` a picklable object graph in it.  The load
+happens in a module reached from ANY module `m0` that has the same by-reference classes (the dumping
+module itself: same interpreter; a module with those classes only: fresh interpreter) by ANY sequence
+`ops` of `creator.create` / `del creator.<name>` — in particular re-creations of the dumped object's
+class names with the same base and attribute names and other weights, typecode or class-level
+constants.  Then the load succeeds, and
+
+* the loaded heap is exactly the heap obtained by unpickling under the dumper's own class table
+  (`pickleRoundTrip`, which `pickle_equal` shows equal to the original at every depth) with every
+  class id replaced by the id of a class made by this very load;
+* that class carries the PICKLED record: the same kind (base), the same class-level attributes
+  (`dictCls`: weights, typecode, constants), the same per-instance attribute names, their classes
+  being again re-created classes of the dump;
+* a by-value class is never one of the classes the namespace held (`off ≤ tr c`): what the name is
+  bound to at load time is not consulted;
+* the classes of the loading module, hence of `m0`, are untouched. -/
+theorem pickle_class_independent_of_namespace
+    (m : Module) (nb : Nat) (hct : CTOk m.classes)
+    (objs : Oid → Option Obj) (n : Nat) (v : Val) (hv : Within m.classes PickleOK objs n v)
+    (m0 : Module) (hnb : nb ≤ m0.classes.length)
+    (hpre : ∀ c, c < nb → m0.classes[c]? = m.classes[c]?) (ops : List NsOp)
+    (objs0 : Oid → Option Obj) (next0 : Nat) (hcl : Closed objs0 next0) :
+    ∃ P m'' objs' next' v' objsS,
+      dumpP m nb objs n v = some P ∧
+      loadP (nsRun m0 ops) P objs0 next0 = some (m'', objs', next', v') ∧
+      pickleRoundTrip m.classes n objs v objs0 next0 = some (objsS, next', v') ∧
+      (∀ k, abs objsS k v' = abs objs k v) ∧
+      (∀ x, objs' x = if x < next0 then objs0 x
+          else (objsS x).map (retag (trLoad nb (nsRun m0 ops).classes.length))) ∧
+      (∀ c ci, m.classes[c]? = some ci →
+        m''.classes[trLoad nb (nsRun m0 ops).classes.length c]?
+          = some (retagInfo (trLoad nb (nsRun m0 ops).classes.length) ci)) ∧
+      (∀ c, nb ≤ c → (nsRun m0 ops).classes.length ≤ trLoad nb (nsRun m0 ops).classes.length c) ∧
+      (∀ c, c < (nsRun m0 ops).classes.length → m''.classes[c]? = (nsRun m0 ops).classes[c]?) ∧
+      (∀ c, c < m0.classes.length → m''.classes[c]? = m0.classes[c]?) := by
+  obtain ⟨hk1, hk2⟩ := nsRun_keeps ops m0
+  generalize hm' : nsRun m0 ops = m' at hk1 hk2 ⊢
+  have hnb' : nb ≤ m'.classes.length := Nat.le_trans hnb hk1
+  have hpre' : ∀ c, c < nb → m'.classes[c]? = m.classes[c]? := fun c hc =>
+    (hk2 c (Nat.lt_of_lt_of_le hc hnb)).trans (hpre c hc)
+  obtain ⟨objsS, nextS, vS, hrt, habs, hold, _⟩ :=
+    pickle_equal m.classes hct objs n v hv objs0 next0 hcl
+  obtain ⟨t, stS, hser, hreb, rfl, rfl⟩ := pickleRoundTrip_inv hrt
+  have hT := tableMap_load m.classes m'.classes nb hct hnb' hpre'
+  have hlen : m.classes.length
+      ≤ (m'.classes ++ (m.classes.drop nb).map (retagInfo (trLoad nb m'.classes.length))).length := by
+    simp only [List.length_append, List.length_map, List.length_drop]
+    omega
+  have hR0 : HRel (trLoad nb m'.classes.length) next0 ⟨objs0, next0, []⟩ ⟨objs0, next0, []⟩ := by
+    refine ⟨rfl, Nat.le_refl _, fun x => ?_⟩
+    by_cases hx : x < next0
+    · simp [hx]
+    · simp only [hx, if_false]
+      rw [hcl.bound x (Nat.le_of_not_lt hx)]
+      rfl
+  obtain ⟨B', hB', hR'⟩ := (rebuild_sim hT next0 hlen).1 t _ _ _ _ hR0 hreb
+  let P : Pickle := { nb := nb, classes := m.classes, names := m.names, root := t }
+  have hcls : (loadClasses m' P).classes
+      = m'.classes ++ (m.classes.drop nb).map (retagInfo (trLoad nb m'.classes.length)) :=
+    loadClasses_classes m' P
+  refine ⟨P, loadClasses m' P, B'.objs, stS.next, vS, stS.objs, ?_, ?_, hrt, habs, ?_, ?_, ?_, ?_, ?_⟩
+  · simp only [dumpP, hser, P]
+  · have : rebuild (loadClasses m' P).classes ⟨objs0, next0, []⟩
+        (mapClsPT (trLoad P.nb m'.classes.length) P.root) = some (B', vS) := by
+      rw [hcls]; exact hB'
+    simp only [loadP, this, hR'.next]
+  · intro x
+    rw [hR'.objs x]
+    by_cases hx : x < next0
+    · simp only [hx, if_true]
+      exact hold x hx
+    · simp only [hx, if_false]
+  · intro c ci hci
+    rw [hcls]
+    exact hT c ci hci
+  · intro c hc
+    have : ¬ c < nb := Nat.not_lt.2 hc
+    simp only [trLoad, this, if_false]
+    exact Nat.le_add_right _ _
+  · intro c hc
+    rw [hcls]
+    exact List.getElem?_append_left hc
+  · intro c hc
+    rw [hcls, List.getElem?_append_left (Nat.lt_of_lt_of_le hc hk1)]
+    exact hk2 c hc
+
+/-- Instance of the hypotheses of `pickle_class_independent_of_namespace`: the swarm of `Ex.heap`,
+dumped in `Ex.modSrc` (no by-reference classes) and loaded in the same module after the name 5 — the
+individual's class, `dict_cls` `9 ↦ 3` — was re-created with the same attribute names and `9 ↦ 77`. -/
+example : ∃ P m'' objs' next' v' objsS,
+    dumpP Ex.modSrc 0 Ex.heap 3 (.ref 0) = some P ∧
+    loadP (nsRun Ex.modSrc [.create 5 ⟨.plain, [(1, 0)], [(9, .atom 77)]⟩]) P Ex.heap 3
+      = some (m'', objs', next', v') ∧
+    pickleRoundTrip Ex.ct 3 Ex.heap (.ref 0) Ex.heap 3 = some (objsS, next', v') ∧
+    (∀ c ci, Ex.ct[c]? = some ci → m''.classes[trLoad 0 4 c]? = some (retagInfo (trLoad 0 4) ci)) := by
+  obtain ⟨P, m'', objs', next', v', objsS, h1, h2, h3, _, _, h6, _⟩ :=
+    pickle_class_independent_of_namespace Ex.modSrc 0 Ex.ct_ok Ex.heap 3 (.ref 0) Ex.heap_pickleOK
+      Ex.modSrc (Nat.zero_le _) (fun c hc => absurd hc (Nat.not_lt_zero c))
+      [.create 5 ⟨.plain, [(1, 0)], [(9, .atom 77)]⟩] Ex.heap 3 Ex.heap_closed
+  exact ⟨P, m'', objs', next', v', objsS, h1, h2, h3, h6⟩
+
+/-- … and the evaluation: the loaded swarm (oid 3) is an instance of class 6 = 4 + 2, its individual
+(oid 6) of class 5 = 4 + 1, which carries the PICKLED `9 ↦ 3`, not the `9 ↦ 77` of the class that the
+name 5 was bound to at load time (class 3); afterwards the name 5 is bound to the re-created class. -/
+example : ((dumpP Ex.modSrc 0 Ex.heap 3 (.ref 0)).bind (fun P =>
+      (loadP (nsRun Ex.modSrc [.create 5 ⟨.plain, [(1, 0)], [(9, .atom 77)]⟩]) P Ex.heap 3).map
+        (fun r => (r.2.2.2, (r.2.1 3).map (·.cls), (r.2.1 6).map (·.cls)))))
+    = some (.ref 3, some 6, some 5) := by
+  decide
+
+example : ((dumpP Ex.modSrc 0 Ex.heap 3 (.ref 0)).bind (fun P =>
+      (loadP (nsRun Ex.modSrc [.create 5 ⟨.plain, [(1, 0)], [(9, .atom 77)]⟩]) P Ex.heap 3).map
+        (fun r => (r.1.classes[5]?, r.1.classes[3]?, lookup 5 r.1.bound))))
+    = some (some ⟨.plain, [(1, 4)], [(9, .atom 3)]⟩, some ⟨.plain, [(1, 0)], [(9, .atom 77)]⟩,
+        some 5) := by
+  decide
+
+/-- The loaded ROOT object, spelled out: it is an instance of a class made by the load, whose
+record is the pickled one — whatever the namespace went through. -/
+theorem loaded_object_class_record
+    (m : Module) (nb : Nat) (hct : CTOk m.classes)
+    (objs : Oid → Option Obj) (n : Nat) (x : Oid) (o : Obj) (ci : ClassInfo)
+    (hv : Within m.classes PickleOK objs n (.ref x)) (ho : objs x = some o)
+    (hci : m.classes[o.cls]? = some ci)
+    (m0 : Module) (hnb : nb ≤ m0.classes.length)
+    (hpre : ∀ c, c < nb → m0.classes[c]? = m.classes[c]?) (ops : List NsOp)
+    (objs0 : Oid → Option Obj) (next0 : Nat) (hcl : Closed objs0 next0) :
+    ∃ P m'' objs' next' x' o',
+      dumpP m nb objs n (.ref x) = some P ∧
+      loadP (nsRun m0 ops) P objs0 next0 = some (m'', objs', next', .ref x') ∧
+      next0 ≤ x' ∧ objs' x' = some o' ∧ o'.items.length = o.items.length ∧
+      o'.cls = trLoad nb (nsRun m0 ops).classes.length o.cls ∧
+      (nb ≤ o.cls → (nsRun m0 ops).classes.length ≤ o'.cls) ∧
+      ∃ ci', m''.classes[o'.cls]? = some ci' ∧ ci'.kind = ci.kind ∧ ci'.dictCls = ci.dictCls ∧
+        ci'.dictInst.map (·.1) = ci.dictInst.map (·.1) := by
+  obtain ⟨P, m'', objs', next', v', objsS, h1, h2, h3, h4, h5, h6, h7, _, _⟩ :=
+    pickle_class_independent_of_namespace m nb hct objs n (.ref x) hv m0 hnb hpre ops objs0 next0 hcl
+  -- the reference copy: a reference to a fresh object of the original's class
+  have hn : ∃ k, n = k + 1 := by
+    cases n with
+    | zero => exact hv.elim
+    | succ k => exact ⟨k, rfl⟩
+  have ha := h4 1
+  rw [abs.eq_3, ho] at ha
+  cases v' with
+  | atom a => simp [abs] at ha
+  | ref x' =>
+    rw [abs.eq_3] at ha
+    cases hS : objsS x' with
+    | none => rw [hS] at ha; simp at ha
+    | some oS =>
+      rw [hS] at ha
+      simp only [PV.node.injEq] at ha
+      obtain ⟨hcls, _, hitems, _⟩ := ha
+      have hfresh : next0 ≤ x' :=
+        pickle_disjoint m.classes hct objs n (.ref x) objs0 next0 hcl objsS next' (.ref x') h3 x'
+          (Reach.here x')
+      have hx' : objs' x' = some (retag (trLoad nb (nsRun m0 ops).classes.length) oS) := by
+        rw [h5 x', if_neg (Nat.not_lt.2 hfresh), hS]
+        rfl
+      refine ⟨P, m'', objs', next', x', _, h1, h2, hfresh, hx', ?_, ?_, ?_, ?_⟩
+      · have := congrArg List.length hitems
+        simpa [retag] using this
+      · show trLoad nb _ oS.cls = _
+        rw [hcls]
+      · intro hge
+        show _ ≤ trLoad nb _ oS.cls
+        rw [hcls]
+        exact h7 _ hge
+      · refine ⟨retagInfo (trLoad nb (nsRun m0 ops).classes.length) ci, ?_, rfl, rfl, ?_⟩
+        · show m''.classes[trLoad nb _ oS.cls]? = _
+          rw [hcls]
+          exact h6 _ _ hci
+        · simp [retagInfo, List.map_map, Function.comp_def]
+
+/-- Instance of the hypotheses of `loaded_object_class_record` (the swarm of `Ex.heap` at oid 0, of
+class 2), with a history that deletes the name of its class and creates it anew. -/
+example : ∃ P m'' objs' next' x' o',
+    dumpP Ex.modSrc 0 Ex.heap 3 (.ref 0) = some P ∧
+    loadP (nsRun Ex.modSrc [.delete 6, .create 6 ⟨.plain, [], [(9, .atom 1)]⟩]) P Ex.heap 3
+      = some (m'', objs', next', .ref x') ∧ 3 ≤ x' ∧ objs' x' = some o' := by
+  obtain ⟨o, ho⟩ : ∃ o, Ex.heap 0 = some o := ⟨_, rfl⟩
+  obtain ⟨ci, hci⟩ : ∃ ci, Ex.modSrc.classes[o.cls]? = some ci := by
+    cases ho; exact ⟨_, rfl⟩
+  obtain ⟨P, m'', objs', next', x', o', h1, h2, h3, h4, _⟩ :=
+    loaded_object_class_record Ex.modSrc 0 Ex.ct_ok Ex.heap 3 0 o ci Ex.heap_pickleOK ho hci
+      Ex.modSrc (Nat.zero_le _) (fun c hc => absurd hc (Nat.not_lt_zero c))
+      [.delete 6, .create 6 ⟨.plain, [], [(9, .atom 1)]⟩] Ex.heap 3 Ex.heap_closed
+  exact ⟨P, m'', objs', next', x', o', h1, h2, h3, h4⟩
+
+/-- The identity-free form: every class of the dump — the loaded objects' classes and, through
+`dict_inst`, the classes of their per-instance attributes — is described after the load by the same
+words (`__name__`, base kind, class-level attributes, per-instance attribute names and THEIR classes'
+descriptions) as in the dumping module, for every namespace history. -/
+theorem pickle_class_description
+    (m : Module) (nb : Nat) (hct : CTOk m.classes) (hwf : m.names.length = m.classes.length)
+    (m0 : Module) (hwf0 : m0.names.length = m0.classes.length) (hnb : nb ≤ m0.classes.length)
+    (hpre : ∀ c, c < nb → m0.classes[c]? = m.classes[c]?)
+    (hpren : ∀ c, c < nb → m0.names[c]? = m.names[c]?) (ops : List NsOp) (t : PT) :
+    ∀ (k : Nat) (c : ClsId), c < m.classes.length →
+      describe (loadClasses (nsRun m0 ops) ⟨nb, m.classes, m.names, t⟩).classes
+          (loadClasses (nsRun m0 ops) ⟨nb, m.classes, m.names, t⟩).names k
+          (trLoad nb (nsRun m0 ops).classes.length c)
+        = describe m.classes m.names k c := by
+  obtain ⟨hk1, hk2⟩ := nsRun_keeps ops m0
+  obtain ⟨hn1, hn2⟩ := nsRun_names ops m0
+  have hwf' : (nsRun m0 ops).WF := nsRun_wf ops m0 hwf0
+  generalize nsRun m0 ops = m' at hk1 hk2 hn1 hn2 hwf' ⊢
+  have hnb' : nb ≤ m'.classes.length := Nat.le_trans hnb hk1
+  have hpre' : ∀ c, c < nb → m'.classes[c]? = m.classes[c]? := fun c hc =>
+    (hk2 c (Nat.lt_of_lt_of_le hc hnb)).trans (hpre c hc)
+  have hpren' : ∀ c, c < nb → m'.names[c]? = m.names[c]? := fun c hc =>
+    (hn2 c (by rw [hwf0]; exact Nat.lt_of_lt_of_le hc hnb)).trans (hpren c hc)
+  have hT := tableMap_load m.classes m'.classes nb hct hnb' hpre'
+  have hN := names_load m' ⟨nb, m.classes, m.names, t⟩ hwf' hwf hnb' hpren'
+  rw [loadClasses_classes]
+  exact describe_map hct hT hN
+
+/-- Instance of the hypotheses of `pickle_class_description`: dumped in `Ex.modSrc`, loaded there after
+all three names were re-created with other values. -/
+example : ∀ k c, c < 3 →
+    describe (loadClasses (nsRun Ex.modSrc [.create 4 ⟨.fitness, [], [(7, .atom 1)]⟩,
+        .create 5 ⟨.plain, [(1, 3)], [(9, .atom 77)]⟩, .create 6 ⟨.ctor, [(2, 4)], []⟩])
+        ⟨0, Ex.modSrc.classes, Ex.modSrc.names, .atom 0⟩).classes
+      (loadClasses (nsRun Ex.modSrc [.create 4 ⟨.fitness, [], [(7, .atom 1)]⟩,
+        .create 5 ⟨.plain, [(1, 3)], [(9, .atom 77)]⟩, .create 6 ⟨.ctor, [(2, 4)], []⟩])
+        ⟨0, Ex.modSrc.classes, Ex.modSrc.names, .atom 0⟩).names k
+      (trLoad 0 (nsRun Ex.modSrc [.create 4 ⟨.fitness, [], [(7, .atom 1)]⟩,
+        .create 5 ⟨.plain, [(1, 3)], [(9, .atom 77)]⟩, .create 6 ⟨.ctor, [(2, 4)], []⟩]).classes.length c)
+    = describe Ex.modSrc.classes Ex.modSrc.names k c :=
+  pickle_class_description Ex.modSrc 0 Ex.ct_ok rfl Ex.modSrc rfl (Nat.zero_le _)
+    (fun c hc => absurd hc (Nat.not_lt_zero c)) (fun c hc => absurd hc (Nat.not_lt_zero c)) _ (.atom 0)
+
+/-- The evaluation: the swarm class
+(class 2, named 6) is described by the same words in the module it was dumped in and in a module in
+which all three names were re-created with other values before the load. -/
+example : describe Ex.modSrc.classes Ex.modSrc.names 3 2
+    = some (.mk 6 .ctor [(2, .mk 5 .plain [(1, .mk 4 .fitness [] [(7, .atom (-1))])] [(9, .atom 3)])] []) := by
+  rfl
+
+example : (let m' := nsRun Ex.modSrc [.create 4 ⟨.fitness, [], [(7, .atom 1)]⟩,
+      .create 5 ⟨.plain, [(1, 3)], [(9, .atom 77)]⟩, .create 6 ⟨.ctor, [(2, 4)], []⟩]
+    let m'' := loadClasses m' ⟨0, Ex.modSrc.classes, Ex.modSrc.names, .atom 0⟩
+    (describe m'.classes m'.names 3 5, describe m''.classes m''.names 3 (trLoad 0 6 2)))
+    = (some (.mk 6 .ctor [(2, .mk 5 .plain [(1, .mk 4 .fitness [] [(7, .atom 1)])] [(9, .atom 77)])] []),
+       some (.mk 6 .ctor [(2, .mk 5 .plain [(1, .mk 4 .fitness [] [(7, .atom (-1))])] [(9, .atom 3)])] [])) := by
+  rfl
+
+/-! ### GP node objects: every slot survives pickling, for every history of renamings -/
+
+/-- **Node round trip.**  For every primitive set, every history of `renameArguments` calls before
+the dump and every tree over the node objects of the set: each node comes back from
+`__getstate__` / `__setstate__` with every slot — `name`, `value`, `ret`, `conv_fct` of a terminal,
+`name`, `arity`, `args`, `ret`, `seq` of a primitive — as it was, set or unset. -/
+theorem node_pickle_roundtrip (ps0 ps : Gp.PSet) (hist : List (List (Int × Int)))
+    (_hh : Gp.renameHistory ps0 hist = some ps) (tree : List Nat) (nodes : List Gp.Node)
+    (ht : Gp.treeNodes ps tree = some nodes) :
+    Gp.treeRoundTrip ps tree = some nodes ∧ ∀ n ∈ nodes, Gp.loadNode (Gp.dumpNode n) = n := by
+  refine ⟨?_, fun n _ => Gp.loadNode_dumpNode n⟩
+  simp only [Gp.treeRoundTrip, ht, Gp.map_loadNode_dumpNode]
+
+/-- Instance of the hypotheses of `node_pickle_roundtrip`: `ARG0` renamed to 200, then `ARG1` to the
+old name of the first argument; the tree `add(ARG0, ARG1)`.  After the history the first argument's
+terminal has `name = 100` and `value = 200`: `name` is NOT a function of `value`. -/
+example : Gp.renameHistory Gp.exPset [[(100, 200)], [(101, 100)]]
+    = some { nodes := [.term (some 100) (some 200) (some 7) (some 8),
+                       .term (some 101) (some 100) (some 7) (some 8),
+                       .prim (some 5) (some 2) (some 9) (some 7) (some 10)],
+             arguments := [200, 100], mapping := [(5, 2), (200, 0), (100, 1)] } := by
+  decide
+
+example : ∃ ps nodes, Gp.renameHistory Gp.exPset [[(100, 200)], [(101, 100)]] = some ps ∧
+    Gp.treeNodes ps [2, 0, 1] = some nodes ∧ Gp.treeRoundTrip ps [2, 0, 1] = some nodes := by
+  refine ⟨_, _, rfl, rfl, ?_⟩
+  exact (node_pickle_roundtrip Gp.exPset _ [[(100, 200)], [(101, 100)]] rfl [2, 0, 1] _ rfl).1
+
+/-- `renameArguments` writes `value` and the key in `mapping`, never a `name` slot: along every
+history every node object keeps its `name` (while the example above shows `value` changing) — a
+loader that recomputes `name` from `value` cannot be right after a renaming. -/
+theorem rename_keeps_node_names (ps0 ps : Gp.PSet) (hist : List (List (Int × Int)))
+    (h : Gp.renameHistory ps0 hist = some ps) :
+    ps.nodes.map Gp.Node.name = ps0.nodes.map Gp.Node.name :=
+  Gp.renameHistory_names hist ps0 ps h
+
+example : ∃ ps, Gp.renameHistory Gp.exPset [[(100, 101), (101, 100)]] = some ps ∧
+    ps.nodes.map Gp.Node.name = [some 100, some 101, some 5] ∧
+    ps.nodes.map Gp.Node.value = [some 101, some 100, none] := by
+  refine ⟨_, rfl, ?_, ?_⟩ <;> decide
 
 /-- An alias calls the registered function with the frozen positional arguments followed by the
 call's own, and the frozen keyword arguments overridden/extended by the call's. -/
